@@ -871,3 +871,101 @@ def check_recover(ctx, rule):
         ctx.undecided(rule, f.short, "no path with a rejected complete element explored", fi=f)
     elif not bad:
         ctx.holds(rule, f.short, f"{n} iterations with a rejected complete element: it is consumed before process() waits for more data", fi=f)
+
+
+# ------------------------------------------------------------------ regex literals: no exponential backtracking
+def regex_literals(p, prefixes):
+    """Every regex handed to the re module in the modules selected by ``prefixes``: [(function-or-None, module, call node,
+    pattern or None)].  The pattern argument is resolved through constants, local/module-level names and loops over
+    literal tuples; None = not resolved (reported in the evidence, never a verdict)."""
+    import ast
+    out = []
+    for mod in p.modules.values():
+        if not mod.name.startswith(prefixes):
+            continue
+        re_names = {n for n, b in mod.ns.items() if b[0] == "import" and b[1] == "re" and b[2] is None}
+        re_funcs = {n for n, b in mod.ns.items() if b[0] == "import" and b[1] == "re" and b[2] in ("match", "fullmatch", "search", "compile", "sub", "split", "findall", "finditer")}
+        if not re_names and not re_funcs:
+            continue
+        consts = {}
+        seqs = {}
+
+        def note(scope_node, table_c, table_s):
+            for n in ast.walk(scope_node):
+                if isinstance(n, ast.Assign) and len(n.targets) == 1 and isinstance(n.targets[0], ast.Name):
+                    v = n.value
+                    if isinstance(v, ast.Constant) and isinstance(v.value, str):
+                        table_c.setdefault(n.targets[0].id, []).append(v.value)
+                    elif isinstance(v, (ast.Tuple, ast.List)) and v.elts and all(isinstance(e, ast.Constant) and isinstance(e.value, str) for e in v.elts):
+                        table_s.setdefault(n.targets[0].id, []).extend(e.value for e in v.elts)
+                if isinstance(n, (ast.For, ast.comprehension)) and isinstance(n.target, ast.Name):
+                    it_ = n.iter
+                    if isinstance(it_, (ast.Tuple, ast.List)) and all(isinstance(e, ast.Constant) and isinstance(e.value, str) for e in it_.elts):
+                        table_c.setdefault(n.target.id, []).extend(e.value for e in it_.elts)
+                    elif isinstance(it_, ast.Name):
+                        table_c.setdefault(n.target.id, []).append(("seq", it_.id))
+
+        note(mod.tree, consts, seqs)
+
+        def resolve(arg):
+            if isinstance(arg, ast.Constant) and isinstance(arg.value, str):
+                return [arg.value]
+            if isinstance(arg, ast.Name):
+                got = []
+                for v in consts.get(arg.id, []):
+                    if isinstance(v, tuple):
+                        got.extend(seqs.get(v[1], [None]))
+                    else:
+                        got.append(v)
+                return got or [None]
+            return [None]
+
+        owners = {}
+        for fi in p.functions:
+            if fi.module is mod:
+                for n in ast.walk(fi.node):
+                    owners.setdefault(id(n), fi)
+        for n in ast.walk(mod.tree):
+            if not (isinstance(n, ast.Call) and n.args):
+                continue
+            fn = n.func
+            hit = (isinstance(fn, ast.Attribute) and isinstance(fn.value, ast.Name) and fn.value.id in re_names and fn.attr in ("match", "fullmatch", "search", "compile", "sub", "split", "findall", "finditer")) or (isinstance(fn, ast.Name) and fn.id in re_funcs)
+            if hit:
+                for pat in resolve(n.args[0]):
+                    out.append((owners.get(id(n)), mod, n, pat))
+    return out
+
+
+def check_regex(ctx, rule, prefixes, what):
+    """No regex applied to peer-supplied text can backtrack exponentially: an unbounded repeat whose iteration is ambiguous
+    (some word splits into iterations in two ways) followed by anything that can fail makes matching time exponential in
+    the input length - a few dozen characters of junk stall the receiver for good."""
+    from ..reglang import exponential_repeats
+    # the detector must fire on a known-bad pattern and be silent on a known-good one, on every run
+    if not exponential_repeats(r"^(\d+[:; ]?)+$") or exponential_repeats(r"^\d+([:; ]\d{2})*$"):
+        raise Undecided("the ambiguity detector fails its built-in positive/negative examples")
+    lits = regex_literals(ctx.p, prefixes)
+    n = unresolved = 0
+    bad = False
+    seen = set()
+    for fi, mod, node, pat in lits:
+        where = fi.short if fi is not None else mod.relpath
+        if pat is None:
+            unresolved += 1
+            continue
+        if (where, pat) in seen:
+            continue
+        seen.add((where, pat))
+        n += 1
+        try:
+            hits = exponential_repeats(pat)
+        except Undecided:
+            unresolved += 1
+            continue
+        for desc, w in hits:
+            bad = True
+            ctx.violated(rule, where, f"the pattern {pat!r} iterates a group that matches {w!r} both as one iteration and as several: on {w!r} repeated n times followed by a character that makes the match fail, matching takes 2^n steps - {what}", fi=fi, node=node, text=f"regex:{pat}", witness=(w * 20) + "!")
+    ctx.counters[rule + ":regex literals analysed"] = n
+    ctx.counters[rule + ":regex arguments not resolved to a literal"] = unresolved
+    if not bad:
+        ctx.holds(rule, f"regex literals in {', '.join(prefixes)}", f"{n} regex literals: no unbounded repeat with an ambiguous iteration ({unresolved} pattern arguments not resolved to a literal)")
